@@ -20,7 +20,7 @@ func init() {
 
 func runC02(a hx.Args) string {
 	b, i := a.Board(0)
-	m := move.Move(a.U64(i))
+	m := hx.U2M(a.U64(i))
 	b.MakeMove(m)
 	return (&hx.Nums{}).BoardOutNoHist(b).FenFields(b.FEN()).String()
 }
@@ -152,7 +152,7 @@ func moveTags(b *board.Board, m move.Move) []string {
 }
 
 func c02Case(b *board.Board, m move.Move, desc string, extra ...string) hx.Input {
-	in := (&hx.Nums{}).BoardIn(b).U(uint64(m)).String()
+	in := (&hx.Nums{}).BoardIn(b).U(hx.M2U(m)).String()
 	tags := append(moveTags(b, m), extra...)
 	if b.FiftyCnt >= 99 {
 		tags = append(tags, "clock>=99")
